@@ -239,8 +239,10 @@ theorem proofByHash_ok (b1 : Backend) (ops : List Op) (i : Nat) (l : Leaf) (hl :
    Proved here (`sct_findable_partial`): everything about the history — the leaf the SCT is built from
    is the stored one (also for duplicates), it is sequenced at exactly one index, get-proof-by-hash
    finds that index with a verifying path, and no other index carries the same leaf hash.
-   Missing: the byte-level identity `tls(MerkleTreeLeaf(cert, ts)) = stored.value` and the decoding of
-   `extra` need the RFC 6962 wire library (`CTV/Rfc6962/Wire.lean`, C04/C07's `entry_decode_inverse`),
+   Also proved: the `MerkleTreeLeaf` layer (`encLeaf`, written from RFC 6962 §3.4, used by the driver to
+   build every leaf) is injective (`encLeaf_inj`), so the stored leaf decodes to exactly one (entry, timestamp).
+   Missing: the decoding of `extra` to the chain and, for precertificates, the DER step
+   certificate → (issuer key hash, TBS) need the wire/DER libraries (C04/C07/C03),
    which is not part of this worktree; both are checked bit for bit on every run by the harness
    (`ctutil.LeafHash` of the submitted chain + SCT vs the model's SHA-256 of the stored leaf;
    `client.GetEntries` at the found index vs the submitted certificate and chain). -/
